@@ -4,10 +4,25 @@ use crate::Opts;
 pub mod common;
 pub mod c06;
 pub mod pipes;
+pub mod parsing;
+pub mod templates;
+pub mod cli;
 
 pub fn dispatch(opts: &Opts) -> Report {
     match opts.prop.as_str() {
         "C06" => c06::run(opts),
+        "C02" => parsing::c02(opts),
+        "C03" => parsing::c03(opts),
+        "C11" => parsing::c11(opts),
+        "C12" => parsing::c12(opts),
+        "C04" => templates::c04(opts),
+        "C05" => templates::c05(opts),
+        "C10" => templates::c10(opts),
+        "C17" => templates::c17(opts),
+        "C18" => templates::c18(opts),
+        "C19" => templates::c19(opts),
+        "C20" => templates::c20(opts),
+        "C13" => cli::c13(opts),
         "C01" => pipes::c01(opts),
         "C07" => pipes::c07(opts),
         "C08" => pipes::c08(opts),
